@@ -8,6 +8,7 @@ package main
 // mutate its shared inputs" invariant; plus a free-running -race pass.
 
 import (
+	"context"
 	"encoding/json"
 	"errors"
 	"fmt"
@@ -439,6 +440,21 @@ func c08scenarios() []c08scenario {
 					cs = append(cs, func() {
 						l.Info(fmt.Sprintf("s16 thread %d call %d", t, i), "own", t, "id", fmt.Sprintf("call-%d-%d", t, i), ya("slow", i))
 					})
+				}
+				w.calls = append(w.calls, cs)
+			}
+			return w
+		}},
+		{"S17 a logger with registered context keys, every call with context values of its own", 0, func(th, cp int) *c08world {
+			w := &c08world{rec: &lockedRec{}, noDense: true}
+			l := c08logger("s17", "json", w.rec)
+			l.SetContextKeys("request_id", ctxStringerKey{"trace"}, "absent")
+			for t := 0; t < th; t++ {
+				var cs []func()
+				for i := 0; i < cp; i++ {
+					t, i := t, i
+					ctx := context.WithValue(context.WithValue(context.Background(), "request_id", fmt.Sprintf("req-%d-%d", t, i)), ctxStringerKey{"trace"}, 1000*t+i)
+					cs = append(cs, func() { l.InfoContext(ctx, fmt.Sprintf("s17 thread %d call %d", t, i), "k", t, ya("slow", i)) })
 				}
 				w.calls = append(w.calls, cs)
 			}
